@@ -39,6 +39,7 @@ func runC12(p *Prog, r *Report) {
 	c12Arithmetic(p, r)
 	c12ParseErrors(p, r)
 	c12UnixMilli(p, r)
+	c12LeapRule(p, r)
 	c12RuneErrorWidth(p, r)
 	c12ZoneDropped(p, r)
 	prefixBitsVsConstant(p, r, "R12.8-family-dependent-host-test")
@@ -1033,5 +1034,53 @@ func c12DigitExtractors(p *Prog, r *Report, rule string) {
 	}
 	if n == 0 {
 		r.OK(rule, "no-hand-written-digit-extraction", "-", "no shift-based digit extraction of code points in the text emitters (fmt/strconv format them)")
+	}
+}
+
+// ---- R12.12 a hand-written leap-year rule is the whole Gregorian rule ----
+
+// c12LeapRule: the library validates days by normalising through time.Date. If a function in the value packages instead
+// takes a year modulo 4 and modulo 100 it is computing leap years by hand, and then it must also take it modulo 400:
+// without the third clause 1600, 2000, 2400 … lose their February 29th (or gain one with the clauses inverted). This is a
+// contradiction rule with no instance on today's tree; a break entry in the self-test catalogue keeps it alive.
+func c12LeapRule(p *Prog, r *Report) {
+	const rule = "R12.12-gregorian-leap-rule"
+	n := 0
+	for _, fn := range p.Funcs {
+		pp := fnPkgPath(fn)
+		if (pp != pTypes && pp != pEval) || len(fn.Blocks) == 0 {
+			continue
+		}
+		mods := map[ssa.Value]map[int64]token.Pos{}
+		forEachInstr(fn, func(in ssa.Instruction) {
+			bo, ok := in.(*ssa.BinOp)
+			if !ok || bo.Op != token.REM {
+				return
+			}
+			k, isK := constInt(bo.Y)
+			if !isK || (k != 4 && k != 100 && k != 400) {
+				return
+			}
+			x := stripConv(bo.X)
+			if mods[x] == nil {
+				mods[x] = map[int64]token.Pos{}
+			}
+			mods[x][k] = bo.Pos()
+		})
+		for x, m := range mods {
+			if _, has4 := m[4]; !has4 {
+				continue
+			}
+			if _, has100 := m[100]; !has100 {
+				continue
+			}
+			n++
+			_, has400 := m[400]
+			r.Check(has400, rule, fnQual(fn)+":"+describeVal(x), p.pos(m[100]), "a year taken modulo 4 and 100 is also taken modulo 400",
+				fnQual(fn)+" takes "+describeVal(x)+" modulo 4 and modulo 100 but never modulo 400: as a leap-year rule this gets the years divisible by 400 wrong (2000-02-29 is a valid date)")
+		}
+	}
+	if n == 0 {
+		r.OK(rule, "no-hand-written-leap-rule", "-", "no function of the value packages computes leap years by hand (dates are validated by normalising through time.Date)")
 	}
 }
